@@ -14,26 +14,6 @@ Connection j has its own parameters `Es j` (calls, application behaviour, firewa
 namespace CV
 namespace Node
 
-def n2_stepK (Es : Nat → n2_Env) (ws : List n2_World) : Nat × n2_Step → List n2_World
-  | (j, .answer n) =>
-    match ws[j]? with
-    | none => ws
-    | some w =>
-      match n2_takeAnswer (Es j) w n with
-      | none => ws
-      | some (w', r) => (ws.set j w').mapIdx (fun j' x => n2_resultHandler (Es j') j' j x r)
-  | (j, st) =>
-    match ws[j]? with
-    | none => ws
-    | some w => ws.set j (n2_step (Es j) w st)
-
-def n2_runK (Es : Nat → n2_Env) (ws : List n2_World) (sched : List (Nat × n2_Step)) : List n2_World :=
-  sched.foldl (n2_stepK Es) ws
-
-/-- the steps of connection j -/
-def n2_proj (j : Nat) (sched : List (Nat × n2_Step)) : List n2_Step :=
-  sched.filterMap (fun js => if js.1 = j then some js.2 else none)
-
 theorem n2_stepK_length (Es : Nat → n2_Env) (ws : List n2_World) (js : Nat × n2_Step) :
     (n2_stepK Es ws js).length = ws.length := by
   obtain ⟨j, st⟩ := js
